@@ -201,7 +201,6 @@ def run(tier):
     rule_R12(res, prog)
     rule_R13(res, prog)
     rule_R14(res, prog)
-    rule_R15(res, prog)
     rule_R16(res, prog)
     return res.finish()
 
@@ -1071,83 +1070,6 @@ def rule_R14(res, prog):
                              fn.relfile, ib["term"]["ln"], cu.ftext(ib["term"]["c"])[:60]), file=fn.relfile, line=ib["term"]["ln"])
         res.instance(rid, "psX509AuthenticateCert:%s identity test behind sc != ic" % ib["term"]["ln"], ok, finding=f_)
     res.floor(rid, 2)
-
-
-def rule_R15(res, prog):
-    """'expired / not yet valid' verdicts rest on how a time string is READ: UTCTime has a two-digit year, GeneralizedTime four.
-    The tag that selects the reading (kept in a local and tested as `tag == ASN_UTCTIME` in the import call, or stored in a
-    `...Type` field for later comparisons) must be the tag of the very element being parsed: between the read `tag = *p` and
-    the use no path skips over a whole element (`p += len`) without reading the tag again.  A stale tag makes a
-    GeneralizedTime nextUpdate `20300101000000Z` read as the year 2020 (or the reverse), so an outdated CRL counts as
-    current."""
-    from sa import cfgutil as cu
-    rid = "C03.R15"
-    res.rule(rid, "the ASN.1 time tag that selects the UTCTime / GeneralizedTime reading belongs to the element being parsed")
-    n = 0
-    for fn in sorted(prog.functions.values(), key=lambda f: f.qname):
-        if not fn.blocks or not fn.relfile.startswith("crypto/keyformat/"):
-            continue
-        uses = []       # (block id, idx, line, element, var node, what)
-        for b in fn.blocks:
-            for idx, ln, x in cu.block_exprs(b):
-                for m in walk(x):
-                    if m.get("k") == "bin" and m["op"] == "=":
-                        l, r = strip(m["l"]), strip(m["r"])
-                        if l is not None and l.get("k") == "mem" and (l.get("f") or "").endswith("Type") and r is not None and \
-                                r.get("k") == "var" and r.get("sc") == "l":
-                            uses.append((b["id"], idx, ln, x, r, "store to %s" % cu.ftext(l)))
-                    if m.get("k") == "call" and m.get("fn") == "psBrokenDownTimeImport":
-                        for a in m.get("a", []):
-                            for q in walk(a):
-                                if q.get("k") == "bin" and q["op"] in ("==", "!=") and (strip(q["l"]) or {}).get("k") == "var" and \
-                                        (strip(q["l"]) or {}).get("sc") == "l" and (strip(q["r"]) or {}).get("k") == "int":
-                                    uses.append((b["id"], idx, ln, x, strip(q["l"]), "psBrokenDownTimeImport(.. %s ..)" % cu.ftext(q)))
-        if not uses:
-            continue
-        rd = cu.reaching_defs(fn)
-        IN, defs, per_block = rd
-        for (bid, idx, ln, ux, var, what) in uses:
-            dset = cu.defs_at(fn, rd, bid, idx, var["id"])
-            tagdefs = []
-            for dd in dset:
-                rhs = strip(dd[3]) if dd[3] is not None else None
-                while rhs is not None and rhs.get("k") == "cast":
-                    rhs = strip(rhs["e"])
-                if rhs is not None and rhs.get("k") == "un" and rhs["op"] == "*":
-                    tagdefs.append((dd, cu.ftext(strip(rhs["e"]))))
-            if not tagdefs:
-                continue
-            n += 1
-            bad = None
-            for (dd, ptxt) in tagdefs:
-                def advance(x, ptxt=ptxt):
-                    return any(m.get("k") == "bin" and m["op"] == "+=" and cu.ftext(strip(m["l"])) == ptxt and
-                               (strip(m["r"]) or {}).get("k") != "int" for m in walk(x))
-
-                def redef(x, vid=var["id"]):
-                    return any(m.get("k") == "bin" and m["op"] == "=" and (strip(m["l"]) or {}).get("id") == vid for m in walk(x))
-                p1 = cu.escapes(fn, (dd[0], dd[1]), lambda x, ux=ux: x is ux, target_expr=advance)
-                if p1 is None:
-                    continue
-                # from each advance reachable that way: is the use reachable without reading the tag again?
-                adv_sites = [(bb["id"], i_) for bb in fn.blocks for i_, l_, x_ in cu.block_exprs(bb) if advance(x_)]
-                for (ab, ai) in adv_sites:
-                    p2 = cu.escapes(fn, (ab, ai), redef, target_expr=lambda x, ux=ux: x is ux)
-                    if p2 is not None:
-                        bad = (dd[4], [q[1] for q in p2[-5:]])
-                        break
-                if bad:
-                    break
-            f_ = None
-            if bad is not None:
-                f_ = Finding(PROP, rid, fn.name, "time tag of a previous element used",
-                             "%s:%s %s(): %s uses `%s`, read from the encoding at line %s, after the parse pointer has been moved past a whole "
-                             "element (via lines %s) without reading the tag again: the tag of the PREVIOUS time element decides whether this "
-                             "one has a two- or four-digit year, so a GeneralizedTime nextUpdate is read as UTCTime (2030 -> 2020) or recorded "
-                             "with the wrong type, and an outdated CRL / expired certificate is taken for current" % (
-                                 fn.relfile, ln, fn.name, what, var.get("n"), bad[0], bad[1]), file=fn.relfile, line=ln)
-            res.instance(rid, "%s:%s %s with the tag of the element at hand" % (fn.name, ln, what), bad is None, finding=f_)
-    res.floor(rid, 3)
 
 
 def rule_R16(res, prog):
